@@ -119,3 +119,30 @@ Proof.
   destruct (async_sync_agree_all txt p p' pick1 f1 t2 Hp Ha Hf Hall H2) as (n & Hn).
   exists n. intros pick2 f2 Hlt. destruct (Hn pick2 f2 Hlt) as (t3 & H3 & Hl3). exists t3. split; [done|]. by rewrite Hl3.
 Qed.
+
+(* ------------------------------------------------------------------ non-vacuity *)
+Definition negfwd_text (txt : string) : bool :=
+  match parse_string txt with
+  | POk p => match typecheck p with
+             | Accept p' => RtStaticCheck.in_fragment_b p' && negfwd_prog_b p'
+             | _ => false
+             end
+  | _ => false
+  end.
+
+(* a proxy that forwards to a server at the negative type 1 -* 1: the client's request goes through the forward *)
+Definition example_negfwd_text : string :=
+"type A = lin 1 -* 1
+let srv() : A = <x, y> <- recv self; wait x; print served; close y
+let prx() : A = s : A <- new srv(); fwd self s
+prc[a] : lin 1 = p : A <- new prx(); u : lin 1 <- new close self; r : lin 1 <- new send p<u, self>; wait r; print done; close self".
+
+Example example_negfwd_accept : negfwd_text example_negfwd_text = true.
+Proof. vm_compute. reflexivity. Qed.
+
+(* the three modes on it (first enabled choice at every step) *)
+Example example_negfwd_runs :
+  run_text example_negfwd_text NP (fun _ _ => 0%nat) = Some (1%nat, ["served"; "done"], true) /\
+  run_text example_negfwd_text Sync (fun _ _ => 0%nat) = Some (1%nat, ["served"; "done"], true) /\
+  run_text example_negfwd_text Async (fun _ _ => 0%nat) = Some (0%nat, ["served"; "done"], true).
+Proof. vm_compute. auto. Qed.
